@@ -77,6 +77,9 @@ type Conn struct {
 	ClosedAt time.Duration
 	rdl      time.Time
 	wdl      time.Time
+	// WriteErr, if set, is returned by every Write of the owner (the peer has become unreachable: sends
+	// fail at once, e.g. ENETUNREACH, while reads still work).
+	WriteErr error
 	// Responder, if set, is called with every chunk the owner writes; what it
 	// returns becomes readable by the owner at once (a peer that answers
 	// immediately: the reply can overtake the writer's next step).
@@ -187,6 +190,9 @@ func (c *Conn) Write(b []byte) (int, error) {
 	vsched.Point("write:" + c.Name)
 	if c.closed {
 		return 0, closedErr{}
+	}
+	if c.WriteErr != nil {
+		return 0, c.WriteErr
 	}
 	// a stalled peer: block until the write deadline (timeout error, nothing written), the end of the stall or Close
 	for {
